@@ -172,11 +172,20 @@ def find__all__(module):
 
         return False
 
-    for node in ast.iter_child_nodes(module):
+    def module_statements(node):
+        # Statements in the module namespace, including those nested in compound statements
+        for child in ast.iter_child_nodes(node):
+            if isinstance(child, (ast.FunctionDef, ast.AsyncFunctionDef, ast.ClassDef, ast.Lambda)):
+                continue
+            yield child
+            for statement in module_statements(child):
+                yield statement
+
+    for node in module_statements(module):
         if not is_assign_all_node(node):
             continue
 
-        if not isinstance(node.value, ast.List):
+        if not isinstance(node.value, (ast.List, ast.Tuple)):
             continue
 
         for el in node.value.elts:
